@@ -1089,65 +1089,143 @@ func scenMatrix(name string, rng *vh.RNG, r *vh.Run) {
 	}
 }
 
-// scenSyncClose: Close while a sync round is handing downloaded blocks to the chain manager.  The
-// node under test connects to a peer that is ahead; its syncLoop starts a round (parallelSync),
-// whose ingestion goroutine calls AddBlocks / AddValidatedV2Blocks of the (gated) chain manager.
-// Close must not return while such a call is in progress, must return once the manager returns,
-// and nothing of the closed syncer may call into the manager afterwards.
+// scenSyncClose: Close while a sync round is in progress.  The node under test connects to peers
+// that are ahead; its syncLoop starts a round (parallelSync): one worker per peer downloads
+// blocks, the round's ingestion goroutine hands them to the (gated) chain manager.
+//
+//	variant 0  one peer; the manager call is held while Close is called
+//	variant 1  one peer; Close at a random moment of the round
+//	variant 2  two or three peers whose block requests are held on the serving side; Close when at
+//	           least two requests (a request and its end-of-round duplicate) are in flight
+//	variant 3  four peers, two requests: one peer answers, the manager rejects the blocks
+//	           (ingestion error aborts the round) while the other peers' requests are in flight;
+//	           then Close
+//
+// Close must not return while a call into the manager is in progress, must return once the round's
+// goroutines can end (every worker's response must find room although nobody reads any more), and
+// nothing of the closed syncer may call into the manager afterwards.
 func scenSyncClose(name string, rng *vh.RNG, r *vh.Run) {
 	idx := 0
 	fmt.Sscanf(name[len("syncclose"):], "%d", &idx)
-	hold := idx%2 == 0 // even: the manager call is held while Close is called; odd: Close at a random moment of the round
+	variant := []int{0, 2, 3, 1}[idx%4]
+	hold := variant == 0
 	nBlocks := 8 + rng.Intn(30)
 	closeAfter := time.Duration(rng.Intn(4000)) * time.Microsecond
-	c := &vh.Case{Name: name, Tags: []string{"scen:syncclose", fmt.Sprintf("syncclose-hold:%v", hold)},
-		Info: map[string]any{"hold": hold, "blocks": nBlocks, "close_after_us": closeAfter.Microseconds()}}
+	nPeers := 1
+	switch variant {
+	case 2:
+		nPeers = 2 + rng.Intn(2)
+	case 3:
+		nPeers = 4
+	}
+	c := &vh.Case{Name: name, Tags: []string{"scen:syncclose", fmt.Sprintf("syncclose-variant:%d", variant)},
+		Info: map[string]any{"variant": variant, "blocks": nBlocks, "peers": nPeers, "close_after_us": closeAfter.Microseconds()}}
 	defer func() { r.Add(c) }()
 	threadgroup.VerifStart()
-	ahead, err := newNode("127.0.0.1", "", nil, false)
-	if err != nil {
-		orc(c, "setup", "peer: %v", err)
-		return
-	}
-	for i := 0; i < nBlocks; i++ {
-		b, ok := coreutils.MineBlock(ahead.cm, types.VoidAddress, 10*time.Second)
-		if !ok {
-			orc(c, "setup", "mining failed")
+	var ahead []*node
+	var chain0 []types.Block
+	for i := 0; i < nPeers; i++ {
+		// in the multi-peer variants the serving side holds the block requests (variant 3: all but peer 0)
+		gated := variant >= 2
+		nd, err := newNode("127.0.0.1", "", nil, gated)
+		if err != nil {
+			orc(c, "setup", "peer: %v", err)
 			return
 		}
-		if err := ahead.cm.AddBlocks([]types.Block{b}); err != nil {
-			orc(c, "setup", "mined block rejected: %v", err)
+		if gated {
+			nd.gate.setOpen(variant == 3 && i == 0)
+		}
+		ahead = append(ahead, nd)
+		if i == 0 {
+			for k := 0; k < nBlocks; k++ {
+				b, ok := coreutils.MineBlock(nd.cm, types.VoidAddress, 10*time.Second)
+				if !ok {
+					orc(c, "setup", "mining failed")
+					return
+				}
+				if err := nd.cm.AddBlocks([]types.Block{b}); err != nil {
+					orc(c, "setup", "mined block rejected: %v", err)
+					return
+				}
+				chain0 = append(chain0, b)
+			}
+		} else if err := nd.cm.AddBlocks(chain0); err != nil {
+			orc(c, "setup", "peer chain: %v", err)
 			return
 		}
 	}
-	srv, err := newNode("127.0.0.1", "", nil, true, syncer.WithSyncInterval(20*time.Millisecond), syncer.WithMaxSendBlocks(uint64(3+rng.Intn(6))))
+	closeAll := func() {
+		for _, nd := range ahead {
+			if nd.gate != nil {
+				nd.gate.setOpen(true)
+			}
+			closeWithin(func() { nd.s.Close() }, closeDeadline)
+		}
+	}
+	opts := []syncer.Option{syncer.WithSyncInterval(20 * time.Millisecond)}
+	switch variant {
+	case 0, 1:
+		opts = append(opts, syncer.WithMaxSendBlocks(uint64(3+rng.Intn(6))))
+	case 3:
+		opts = append(opts, syncer.WithMaxSendBlocks(uint64((nBlocks+1)/2))) // two requests
+	}
+	srv, err := newNode("127.0.0.1", "", nil, true, opts...)
 	if err != nil {
 		orc(c, "setup", "server: %v", err)
 		return
 	}
 	srv.gate.setOpen(true)
 	srv.gate.setIngestShut(hold)
-	if _, err := srv.s.Connect(context.Background(), ahead.s.Addr()); err != nil {
-		orc(c, "setup", "connect: %v", err)
-		return
+	if variant == 3 {
+		srv.gate.mu.Lock()
+		srv.gate.failIngest = true
+		srv.gate.mu.Unlock()
 	}
-	// wait until the round hands a batch to the manager
-	deadline := time.Now().Add(settleDeadline)
-	for {
-		if _, entered := srv.gate.ingestNow(); entered > 0 {
-			break
-		}
-		if time.Now().After(deadline) {
-			orc(c, "setup", "no sync round reached the chain manager within %v", settleDeadline)
-			srv.gate.setIngestShut(false)
-			closeWithin(func() { srv.s.Close() }, closeDeadline)
-			closeWithin(func() { ahead.s.Close() }, closeDeadline)
-			threadgroup.VerifStop()
+	for _, nd := range ahead {
+		if _, err := srv.s.Connect(context.Background(), nd.s.Addr()); err != nil {
+			orc(c, "setup", "connect: %v", err)
 			return
 		}
-		time.Sleep(time.Millisecond)
 	}
-	if !hold {
+	inFlight := func() int {
+		n := 0
+		for _, nd := range ahead {
+			if nd.gate != nil {
+				n += nd.gate.insideNow()
+			}
+		}
+		return n
+	}
+	// wait for the moment
+	deadline := time.Now().Add(settleDeadline)
+	reached := false
+	for !reached && time.Now().Before(deadline) {
+		switch variant {
+		case 0, 1:
+			_, entered := srv.gate.ingestNow()
+			reached = entered > 0
+		case 2:
+			reached = inFlight() >= 2
+		case 3:
+			_, entered := srv.gate.ingestNow()
+			// the answered request may be the second one (nothing to ingest yet): three
+			// requests in flight and none answered any more is the moment as well
+			reached = entered > 0 || (inFlight() >= 3 && time.Until(deadline) < settleDeadline-3*time.Second)
+		}
+		if !reached {
+			time.Sleep(time.Millisecond)
+		}
+	}
+	if !reached {
+		orc(c, "setup", "the sync round did not reach the moment of variant %d within %v (%d block requests in flight)", variant, settleDeadline, inFlight())
+		srv.gate.setIngestShut(false)
+		closeWithin(func() { srv.s.Close() }, closeDeadline)
+		closeAll()
+		threadgroup.VerifStop()
+		return
+	}
+	c.Info["requests_in_flight_at_close"] = inFlight()
+	if variant == 1 || variant == 3 {
 		time.Sleep(closeAfter)
 	}
 	closeDone := make(chan struct{})
@@ -1169,7 +1247,7 @@ func scenSyncClose(name string, rng *vh.RNG, r *vh.Run) {
 	select {
 	case <-closeDone:
 	case <-time.After(closeDeadline):
-		orc(c, "syncer-close-hung", "Syncer.Close did not return within %v after the chain manager returned", closeDeadline)
+		orc(c, "syncer-close-hung", "Syncer.Close did not return within %v during a sync round with %d peer(s) (variant %d, %d block request(s) in flight when Close was called): the round's goroutines cannot end", closeDeadline, nPeers, variant, c.Info["requests_in_flight_at_close"])
 	}
 	// nothing of the closed syncer calls into the manager afterwards
 	_, enteredAtClose := srv.gate.ingestNow()
@@ -1182,7 +1260,7 @@ func scenSyncClose(name string, rng *vh.RNG, r *vh.Run) {
 	case <-time.After(settleDeadline):
 		orc(c, "run-not-returned", "Syncer.Run has not returned %v after Close returned", settleDeadline)
 	}
-	closeWithin(func() { ahead.s.Close() }, closeDeadline)
+	closeAll()
 	events := threadgroup.VerifStop()
 	c.Nontrivial = true
 	c.Key = fmt.Sprintf("%s/%d", name, len(events))
